@@ -694,6 +694,8 @@ func (h *harness) classify(v *view, fx facts, generic string) (string, string) {
 	switch {
 	case fx.planShrink:
 		return keyOpenShrink, fx.desc
+	case fx.batchShrink && fx.l1Behind:
+		return keyPollShrink, fx.desc + " (the batch also holds a level-1 file behind the position: " + keyL1Behind + " applies as well)"
 	case fx.batchShrink:
 		return keyPollShrink, fx.desc
 	case fx.l1Behind:
